@@ -179,6 +179,8 @@ func c06Transition(p *run.Part) func(w *seqx.World, pre *seqx.Pre, op seqx.Op, s
 					p.Violate("policy", "C06:failed-merge-changed-log", fmt.Sprintf("after %s: the merge failed but %s", path, d), c)
 					return
 				}
+				twin := seqx.Replay(w.Cfg, c.Path[:len(c.Path)-1])
+				followUps(p, "policy", w, twin, op.A, "after "+path+" (merge denied)", c)
 				p.Add(0, 0, 1, 0)
 				p.Nontriv("denied-merge:" + path)
 				return
@@ -188,6 +190,30 @@ func c06Transition(p *run.Part) func(w *seqx.World, pre *seqx.Pre, op seqx.Op, s
 				return
 			}
 			modelAgree(p, "policy", w, op, c)
+		}
+	}
+}
+
+// followUps: after a merge that failed, the destination must also BEHAVE as if the merge had never been
+// attempted. The same follow-up operations are applied to the world in which the merge failed and to
+// a twin world replayed without it; their observables must agree (differential oracle, no expected values).
+func followUps(p *run.Part, check string, failed *seqx.World, twin *seqx.World, dst int, desc string, c interface{}) {
+	ops := []seqx.Op{{K: "joinempty", A: dst}, {K: "join", A: dst, B: 1 - dst}, {K: "app", A: dst}, {K: "joinempty", A: dst}}
+	for i, op := range ops {
+		if op.K == "join" && (op.B < 0 || op.B >= len(failed.Logs)) {
+			continue
+		}
+		s1, s2 := failed.Apply(op), twin.Apply(op)
+		if (s1.Err == nil) != (s2.Err == nil) || s1.Panic != s2.Panic {
+			p.Violate(check, "C06:failed-merge-changes-later-behaviour:"+op.K, fmt.Sprintf("%s; afterwards %s gives error %v / panic %q, without the failed merge %v / %q", desc, op, s1.Err, s1.PanV, s2.Err, s2.PanV), c)
+			return
+		}
+		l1, l2 := failed.Logs[dst], twin.Logs[dst]
+		v1, v2 := seqx.Payloads(l1.Values().Slice()), seqx.Payloads(l2.Values().Slice())
+		h1, h2 := seqx.Payloads(l1.Heads().Slice()), seqx.Payloads(l2.Heads().Slice())
+		if fmt.Sprint(v1) != fmt.Sprint(v2) || fmt.Sprint(h1) != fmt.Sprint(h2) || l1.Len() != l2.Len() {
+			p.Violate(check, "C06:failed-merge-changes-later-behaviour:"+op.K, fmt.Sprintf("%s; after follow-up #%d %s the log shows values %v heads %v, without the failed merge values %v heads %v", desc, i, op, v1, h1, v2, h2), c)
+			return
 		}
 	}
 }
@@ -203,12 +229,29 @@ type c06Case struct {
 	Src    int       `json:"src"`
 	Pos    int       `json:"pos"`
 	Fault  string    `json:"fault"`
+	// Trunc > 0: the destination is first truncated to its newest Trunc entries (size-bounded merge of an
+	// empty log) and the source is a tampered copy of the destination's OWN full history, so that the
+	// candidates are the entries the truncated replica lacks
+	Trunc int `json:"trunc,omitempty"`
+}
+
+func l0Clock(w *seqx.World, r int) int { return w.Logs[r].Clock.GetTime() }
+
+func truncate(w *seqx.World, r, n int) {
+	e := world.NewLog(w.St, w.WriterOf[r], &ipfslog.LogOptions{ID: "X"})
+	if _, err := w.Logs[r].Join(e, n); err != nil {
+		panic(err)
+	}
 }
 
 func tamperOne(p *run.Part, cfg *seqx.Config, cc c06Case) {
 	w := seqx.Replay(cfg, cc.Path)
 	src, dst := w.Logs[cc.Src], w.Logs[cc.Dst]
 	vals := src.Values().Slice()
+	if cc.Trunc > 0 {
+		src = dst
+		vals = dst.Values().Slice()
+	}
 	if cc.Pos >= len(vals) {
 		return
 	}
@@ -218,6 +261,25 @@ func tamperOne(p *run.Part, cfg *seqx.Config, cc c06Case) {
 	headSet := map[string]bool{}
 	for _, h := range src.Heads().Slice() {
 		headSet[h.GetHash().String()] = true
+	}
+	if cc.Trunc > 0 {
+		// the attacker's log is the older part of the history, ending in the (possibly forged) entry at Pos
+		if cc.Pos >= len(vals) {
+			return
+		}
+		vals = vals[:cc.Pos+1]
+		ref := map[string]bool{}
+		for _, e := range vals {
+			for _, n := range e.GetNext() {
+				ref[n.String()] = true
+			}
+		}
+		headSet = map[string]bool{}
+		for _, e := range vals {
+			if !ref[e.GetHash().String()] {
+				headSet[e.GetHash().String()] = true
+			}
+		}
 	}
 	var bad iface.IPFSLogEntry
 	for i, e := range vals {
@@ -263,6 +325,9 @@ func tamperOne(p *run.Part, cfg *seqx.Config, cc c06Case) {
 	if err != nil {
 		panic(err)
 	}
+	if cc.Trunc > 0 {
+		truncate(w, cc.Dst, cc.Trunc)
+	}
 	pre := seqx.SnapPre(w, false)
 	_, inDst := dst.Get(bad.GetHash())
 	var jerr error
@@ -286,6 +351,19 @@ func tamperOne(p *run.Part, cfg *seqx.Config, cc c06Case) {
 		got[e.GetHash().String()] = true
 	}
 	switch {
+	case cc.Trunc > 0 && cc.Fault != "none" && isCandidate && jerr == nil:
+		// a truncated destination need not take back what it dropped, but it must never admit the forged entry
+		if got[bad.GetHash().String()] {
+			p.Violate("tamper", "C06:bad-entry-merged:"+cc.Fault, desc+" (destination truncated to its newest "+fmt.Sprint(cc.Trunc)+" entries): the forged entry was admitted", cc)
+			return
+		}
+	case cc.Trunc > 0 && jerr == nil:
+		for h := range got {
+			if !union[h] {
+				p.Violate("tamper", "C06:merge-invented-entry", desc+": the result holds an entry that neither log had", cc)
+				return
+			}
+		}
 	case cc.Fault == "none" || !isCandidate:
 		if jerr != nil {
 			p.Violate("tamper", "C06:valid-merge-rejected:"+cfg.Name, fmt.Sprintf("%s (not a candidate: %v) failed: %v", desc, !isCandidate, jerr), cc)
@@ -321,10 +399,15 @@ func tamperOne(p *run.Part, cfg *seqx.Config, cc c06Case) {
 			p.Violate("tamper", "C06:bad-entry-merged:"+cc.Fault, desc+": the merge succeeded", cc)
 			return
 		}
-		if d := unchanged(w, pre, cc.Dst); d != "" || w.Key() != pre.Key {
+		if d := unchanged(w, pre, cc.Dst); d != "" || l0Clock(w, cc.Dst) != pre.Clock[cc.Dst] {
 			p.Violate("tamper", "C06:failed-merge-changed-log", fmt.Sprintf("%s: the merge failed (%v) but the destination changed (%s)", desc, jerr, d), cc)
 			return
 		}
+		twin := seqx.Replay(cfg, cc.Path)
+		if cc.Trunc > 0 {
+			truncate(twin, cc.Dst, cc.Trunc)
+		}
+		followUps(p, "tamper", w, twin, cc.Dst, desc+" (rejected)", cc)
 		p.Nontriv(fmt.Sprint(cc.Fault, cc.Pos, pre.Key))
 	}
 	p.Add(0, 0, 1, 0)
@@ -346,6 +429,18 @@ func c06Probe(p *run.Part, cfg *seqx.Config, seen *sync.Map) func(w *seqx.World,
 				for _, f := range c06Faults {
 					cc := c06Case{Config: cfg.Name, Path: c.Path, Dst: dst, Src: src, Pos: pos, Fault: f}
 					tamperOne(p, cfg, cc)
+				}
+			}
+			// truncated destination: the tampered source is the destination's own full history
+			nd := len(w.ML[dst].Set)
+			tkey := cfg.Name + "trunc" + fmt.Sprint(w.ML[dst].UIDs(), dst)
+			if _, dup := seen.LoadOrStore(tkey, true); !dup && nd >= 2 && nd <= 5 {
+				for k := 1; k < nd; k++ {
+					for pos := 0; pos < nd; pos++ {
+						for _, f := range []string{"sig-removed", "payload-altered", "key-removed", "none"} {
+							tamperOne(p, cfg, c06Case{Config: cfg.Name, Path: c.Path, Dst: dst, Src: dst, Pos: pos, Fault: f, Trunc: k})
+						}
+					}
 				}
 			}
 		}
@@ -396,3 +491,37 @@ func init() {
 }
 
 var _ = sort.Strings
+
+// expectedDenial reports whether op is an operation the destination's access policy must refuse
+// (configurations with a policy only) and st indeed failed.
+func expectedDenial(w *seqx.World, pre *seqx.Pre, op seqx.Op, st *seqx.Step) bool {
+	if st.Err == nil || st.Panic != "" {
+		return false
+	}
+	pol := policyOf(w.Cfg.Name, op.A)
+	if pol.writerID == "" && pol.payload == "" {
+		return false
+	}
+	switch op.K {
+	case "app":
+		return pol.writerID == world.IDs[w.WriterOf[op.A]].ID || (pol.payload != "" && pol.payload == fmt.Sprintf("p%d", w.NApp))
+	case "join":
+		have := map[string]bool{}
+		for _, h := range pre.Values[op.A] {
+			have[h] = true
+		}
+		for u := range w.ML[op.B].Set {
+			if !have[w.Ent[u].GetHash().String()] && pol.denies(w, u) {
+				return true
+			}
+		}
+	}
+	return false
+}
+
+// mkPolicy builds a search over the two-replica policy configuration with the extended alphabet (self/empty/foreign merges).
+func mkPolicy(mk func(cfg *seqx.Config, prefix string, d int) *seqx.Search, cfgName string, depth int) *seqx.Search {
+	s := mk(Configs[cfgName], "", depth)
+	s.Alphabet = Alphabet(2, true)
+	return s
+}
